@@ -101,7 +101,7 @@ def check(prop, tier, replay=None):
                    samples=[dict(cfg=c['cfg'], L=c['L'], plain=obs[c['n']]['plain'], sharded=obs[c['n']]['sharded'], hashes=obs[c['n']]['hashes']) for c in cases[:2]],
                    evaluations=len(cases), distinct_nontrivial=nontriv, identity_keys=len(bykey), distinct_hashes=len(byhash),
                    cases_hashed_in_a_second_process=len(hashes2),
-                   rule='one evaluation = one (job shape, post-relabel label set) case of the enumerated universe (207 360 cases; quick tier: 6 000 by seed) rendered to a real '
+                   rule='one evaluation = one (job shape, post-relabel label set) case of the enumerated universe (414 720 cases; quick tier: 6 000 by seed) rendered to a real '
                         'scrape config (scheme, metrics_path, params, constant replace rules) and target group, pushed through the vendored Prometheus (plain) and through the real kvass chain '
                         '(discovery, JSON, sidecar update, injector file, config.Load, shard-side TargetsFromGroup, proxy request, URL at the http client); for C15 additionally with labels moved to the '
                         'group, the target listed twice, a second round in a fresh discovery and a second process',
